@@ -2,6 +2,7 @@ SPECIFICATION GSpec
 CONSTANTS
   Behaviors = {"A", "B", "C"}
   MaxOps = 3
+  MaxRestarts = 1
   Defects = {}
   Depth = 18
 CONSTRAINT Emit
